@@ -270,6 +270,14 @@ def run(ctx):
             base = res["next"]
             shutil.rmtree(snaps, ignore_errors=True)
         shutil.rmtree(root, ignore_errors=True)
+    # ---- a reader that looks while a long-lived writer process continues after another process wrote: nothing committed is lost
+    from harness.core import child
+    for j, sub in enumerate([".", "a/y"][: ctx.pick(1, 2)]):
+        r = child.call("harness.checks.c08", "alternating_processes", {"root": str(ctx.scratch / f"c06_alt{j}"), "fmt": ["npz", "fb", "tfrec"][(j + ctx.seed) % 3],
+                                                                       "hashes": ["sha256"], "sub": sub}, timeout=900)
+        if r["problems"]:
+            ctx.report({"kind": "committed-lost", "two_processes": True}, f"a writer process continuing after another process's completed session (sub-directory {sub!r}): {r['problems'][0]}",
+                       {"case": r["case"], "problems": r["problems"]})
     reps = lean.driver(reqs) if reqs else []
     corr_bad = []
     for (sig, sess, si, labels, idx), rep in zip(meta, reps):
